@@ -10,6 +10,7 @@ import (
 	"net"
 	"net/http"
 	"reflect"
+	"runtime/debug"
 	"strings"
 	"sync"
 	"time"
@@ -178,6 +179,20 @@ func timed(d time.Duration, f func()) bool {
 	}
 }
 
+// firstStack keeps the frames of generated code from a stack trace.
+func firstStack(st string) string {
+	var out []string
+	for _, l := range strings.Split(st, "\n") {
+		if strings.Contains(l, "/gen/") || strings.Contains(l, "goa.design/goa") {
+			out = append(out, strings.TrimSpace(l))
+		}
+		if len(out) >= 8 {
+			break
+		}
+	}
+	return strings.Join(out, " | ")
+}
+
 func errText(err error) string {
 	if err == nil {
 		return ""
@@ -223,7 +238,7 @@ func (e *streamEnd) doSend(i int, fn reflect.Value, what string) bool {
 	if !timed(e.spec.timeout(), func() {
 		defer func() {
 			if r := recover(); r != nil {
-				pan = r
+				pan = fmt.Sprintf("%v\n%s", r, firstStack(string(debug.Stack())))
 				panic(r)
 			}
 		}()
@@ -251,7 +266,7 @@ func (e *streamEnd) doRecv(fn reflect.Value) (string, reflect.Value) {
 	if !timed(e.spec.timeout(), func() {
 		defer func() {
 			if r := recover(); r != nil {
-				pan = r
+				pan = fmt.Sprintf("%v\n%s", r, firstStack(string(debug.Stack())))
 				panic(r)
 			}
 		}()
